@@ -271,6 +271,14 @@ theorem truncated_stream_prefix (c : Codec) (hg : Good c) (blocks : List Bytes)
   rw [he, readAllOut_of_readAllWith c ks _ _ (reads_reference_streams_any_blocks c hg blocks hsm ks hks hlen)] at hp
   exact hp
 
+open Model.Source in
+/-- the same for EVERY behaviour of the underlying io.Reader while it delivers the `n` bytes it has -/
+theorem truncated_stream_prefix_any_source (c : Codec) (hg : Good c) (blocks : List Bytes)
+    (hsm : ∀ b ∈ blocks, (c.enc b).length < 256 ^ 4) (script : List Ans)
+    (ks : List Nat) (hks : ∀ k ∈ ks, 1 ≤ k) (hlen : blocks.flatten.length < ks.length) (n : Nat) (hn : 16 ≤ n) :
+    readAllOutIO c ⟨newReader ((frame (blocks.map c.enc)).take n), script⟩ ks <+: blocks.flatten := by
+  rw [readAllOutIO_refines]; exact truncated_stream_prefix c hg blocks hsm ks hks hlen n hn
+
 /-- FULL round trip, framed: every non-empty payload, every split into Write calls, every sequence of Read
 buffer sizes: what the reader returns is the payload -/
 theorem xerial_roundtrip (c : Codec) (hg : Good c) (henc : ∀ b, b.length ≤ 32768 → (c.enc b).length < 256 ^ 4)
